@@ -229,6 +229,51 @@ def gen_params_text():
                 'ifnotok:raiseexcep.BiogemeError(messages)',
                 'already_there=self.all_parameters_dict.get(key)',
                 'self.all_parameters_dict[key]=parameter_tuple'], 'add_parameter: shape changed: ' + repr(ab))
+    # ---- dump_file: which document is stored in self.document and written
+    df = tr.find('Parameters.dump_file')
+    need([a.arg for a in df.args.args] == ['self', 'file_name'], 'dump_file: signature changed')
+    body = [st_ for st_ in df.body if not tr.ignorable(st_)]
+    wi = [i for i, st_ in enumerate(body) if isinstance(st_, ast.With)]
+    need(len(wi) == 1 and wi[0] == len(body) - 1, 'dump_file: expected the file to be written by one final with-statement')
+    w = body[-1]
+    need(len(w.items) == 1 and isinstance(w.items[0].context_expr, ast.Call) and U(w.items[0].context_expr.func) == 'open'
+         and U(w.items[0].context_expr.args[0]) == 'file_name' and U(w.items[0].context_expr.args[1]) == "'w'"
+         and [U(x) for x in w.body] == ['print(tk.dumps(self.document), file=f)'], 'dump_file: what is written changed')
+
+    def doc_block(stmts):
+        """statements updating self.document -> Gallina expression (option tdoc) over `document` / `generated`"""
+        code = 'document'
+        for st_ in reversed([x for x in stmts if not tr.ignorable(x)]):
+            if isinstance(st_, ast.Assign) and U(st_.targets[0]) == 'self.document' and len(st_.targets) == 1:
+                need(U(st_.value) == 'self.generate_document()', 'dump_file: self.document assigned from ' + U(st_.value))
+                code = f'(let document := Some generated in {code})'
+            elif isinstance(st_, ast.If) and UN(st_.test) in ('self.documentisNone', 'self.documentisnotNone'):
+                a, b = doc_block(st_.body), doc_block(st_.orelse)
+                if UN(st_.test) == 'self.documentisnotNone':
+                    a, b = b, a
+                code = f'(let document := match document with None => {a} | Some _ => {b} end in {code})'
+            else:
+                raise Untranslatable('dump_file: unsupported statement before the file is written: ' + U(st_)[:80])
+        return code
+
+    out.append(f'(* from src/biogeme/parameters.py:{df.lineno} Parameters.dump_file: the document stored in self.document and written *)\n'
+               'Definition dump_file_document (document : option tdoc) (generated : tdoc) : option tdoc :=\n'
+               f'  {doc_block(body[:-1])}.\n')
+    # read_file: an existing file is parsed into self.document and imported; a missing one is created by dump_file
+    rf = tr.find('Parameters.read_file')
+    trys = [x for x in rf.body if isinstance(x, ast.Try)]
+    need(len(trys) == 1 and len(trys[0].handlers) == 1 and U(trys[0].handlers[0].type) == 'FileNotFoundError'
+         and [U(x) for x in trys[0].handlers[0].body if not tr.ignorable(x) and not isinstance(x, ast.Assign)] == ['self.dump_file(self.file_name)'],
+         'read_file: handling of a missing file changed')
+    rd = [U(x) for x in ast.walk(trys[0].body[0]) if isinstance(x, (ast.Assign, ast.Expr)) and 'self.' in U(x) and not U(x).startswith('logger')]
+    need('self.document = tk.parse(content)' in rd and 'self.import_document()' in rd
+         and rd.index('self.document = tk.parse(content)') < rd.index('self.import_document()'), 'read_file: parse / import changed: ' + repr(rd))
+    sv = tr.find('Parameters.set_value')
+    svb = [U(x).replace('\n', '').replace(' ', '') for x in sv.body if not tr.ignorable(x)]
+    need(svb == ['the_tuple=self.get_param_tuple(name,section)',
+                 'the_parameter=ParameterTuple(name=the_tuple.name,value=value,type=the_tuple.type,section=the_tuple.section,'
+                 'description=the_tuple.description,check=the_tuple.check)',
+                 'self.add_parameter(the_parameter)'], 'set_value: shape changed: ' + repr(svb))
     return ('From BV Require Import Model.PyBase Model.Params.\nOpen Scope Z_scope.\nOpen Scope string_scope.\n' + ''.join(out))
 
 def gen_params(ctx):
@@ -637,7 +682,7 @@ def stream_names(ctx, only=None):
             'Definition mdl (c : list string * string * string * string) : string :=\n'
             "  let '(fs, name, ext, obs) := c in\n"
             '  match get_new_file_name fs (S (List.length fs)) name ext with Some n => "@R" ++ n | None => "@Rnone" end.\n'
-            'Definition cases := ' + coq_list(chunk, ';\n') + '.\n'
+            'Definition cases : list (list string * string * string * string) := ' + coq_list(chunk, ';\n') + '.\n'
             'Eval vm_compute in (List.map chk cases).\n'
         )
     outs = ctx.coq_eval_many(files)
@@ -663,14 +708,15 @@ def stream_names(ctx, only=None):
 
 
 # ---------------------------------------------------------------------------- Coq batch helper
-def coq_check_batches(ctx, stream, st, prefix, header, chk_def, items, cases, results, B=200):
+def coq_check_batches(ctx, stream, st, prefix, header, chk_def, items, cases, results, B=200, ctype=None):
     """items[i]: Gallina term of case i; chk_def defines `chk : <case> -> bool`.  Records a
     disagreement for every case whose check evaluates to false."""
     if not items:
         return
     files = {}
     for i in range(0, len(items), B):
-        files[f'{prefix}_{i // B}'] = (header + chk_def + 'Definition cases := ' + coq_list(items[i:i + B], ';\n') +
+        files[f'{prefix}_{i // B}'] = (header + chk_def + 'Definition cases' + (f' : list ({ctype})' if ctype else '') + ' := ' +
+                                       coq_list(items[i:i + B], ';\n') +
                                        '.\nEval vm_compute in (List.map chk cases).\n')
     outs = ctx.coq_eval_many(files)
     for k in sorted(files, key=lambda s: int(s.rsplit('_', 1)[1])):
@@ -838,7 +884,8 @@ def stream_backup(ctx, n=None, with_model=True, only=None):
                '  | _, _ => false end.\n')
         coq_check_batches(ctx, 'backup', st, 'backup',
                           'From BV Require Import Model.PyBase Model.FsOps Gen.Backup.\nOpen Scope string_scope.\n',
-                          chk, items, icases, ires)
+                          chk, items, icases, ires,
+                          ctype='list string * string * bool * option string * (string * string)')
     finish_stream(ctx, 'backup', st)
 
 
@@ -881,7 +928,8 @@ def stream_boolean(ctx, with_model=True, only=None):
                '  match parse_boolean (fst c), snd c with Some a, Some b => Bool.eqb a b | None, None => true | _, _ => false end.\n')
         coq_check_batches(ctx, 'boolean', st, 'boolean',
                           'From BV Require Import Model.PyBase Model.Params Gen.Params.\nOpen Scope string_scope.\n' + SOB,
-                          chk, items, cases, res, B=400)
+                          chk, items, cases, res, B=400,
+                          ctype='string * option bool')
     finish_stream(ctx, 'boolean', st)
 
 
@@ -1119,7 +1167,8 @@ def stream_history(ctx, n=None, with_model=True, only=None):
                '  match get_new_file_name fs (S (List.length fs)) name ext with Some n => String.eqb n obs | None => false end.\n')
         coq_check_batches(ctx, 'history', st, 'history',
                           'From BV Require Import Model.PyBase Gen.Files.\nOpen Scope string_scope.\n',
-                          chk, items, [m[0] for m in imeta], [m[1] for m in imeta])
+                          chk, items, [m[0] for m in imeta], [m[1] for m in imeta],
+                          ctype='list string * string * string * string')
     finish_stream(ctx, 'history', st)
 
 
@@ -1263,7 +1312,8 @@ def stream_toml(ctx, n=None, with_model=True, only=None):
         chk = ('Definition chk (c : list pvalue * list pvalue) : bool :=\n'
                '  match imp_doc (rev (gen_doc (with_values defaults (fst c)))) defaults with\n'
                '  | Some d => all2 (map p_value d) (snd c) | None => false end.\n')
-        coq_check_batches(ctx, 'toml', st, 'toml', header, chk, items, icases, ires, B=40)
+        coq_check_batches(ctx, 'toml', st, 'toml', header, chk, items, icases, ires, B=40,
+                          ctype='list pvalue * list pvalue')
     finish_stream(ctx, 'toml', st)
 
 
@@ -1437,7 +1487,8 @@ def stream_reports(ctx, n=None, with_model=True, only=None):
                '  leq (map fst (html_rows T)) hnames && leq (map fst T) lnames &&\n'
                '  leq (map (fun r => fst (fst r)) (f12_rows TF)) flabels &&\n'
                '  leq (map (fun r => fst (fst r)) (str_rows fst betas)) snames.\n')
-        coq_check_batches(ctx, 'reports', st, 'reports', header, chk, items, icases, ires, B=100)
+        coq_check_batches(ctx, 'reports', st, 'reports', header, chk, items, icases, ires, B=100,
+                          ctype='list string * bool * bool * bool * string * (list string * list string * list string * list string) * (list string * list string)')
     finish_stream(ctx, 'reports', st)
 
 
@@ -1472,6 +1523,257 @@ def stream_pickle(ctx, n=None, only=None):
         if not r['threshold_equal']:
             st.disagree(c, 'same identification threshold', r)
     finish_stream(ctx, 'pickle', st)
+
+
+# ---------------------------------------------------------------------------- stream params (histories on one object)
+BOOL_SPELL = {True: ['True', 'true', 'Yes', 'yes'], False: ['False', 'false', 'No', 'no']}
+
+
+def toml_literal(rng, tagv):
+    """TOML text of a tagged value for a hand-written parameter file (no string escapes needed: only simple strings)"""
+    k = tagv[0]
+    if k == 'b':
+        return '"' + rng.choice(BOOL_SPELL[tagv[1]]) + '"'
+    if k == 'i':
+        return tagv[1]
+    if k == 'f':
+        x = h2f(tagv[1])
+        return repr(x) if ('.' in repr(x) or 'e' in repr(x) or 'n' in repr(x)) else repr(x) + '.0'
+    return '"' + tagv[1] + '"'
+
+
+def safe_value(rng, prm, algos):
+    """admissible value that a BIOGEME object can actually use (seed < 2^32, a few threads, few draws ...)"""
+    ty, ch = prm['type'], set(prm['checks'])
+    if ty == 'bool':
+        return ['b', rng.random() < 0.5]
+    if ty == 'str':
+        return ['s', rng.choice(algos)] if 'check_algo_name' in ch else ['s', rng.choice(['3.2.14', 'v-1', 'x y'])]
+    if ty == 'int' or 'is_integer' in ch:
+        return ['i', str(rng.randint(1, 4) if prm['name'] == 'number_of_threads' else rng.randint(1, 500))]
+    if 'zero_one' in ch:
+        return ['f', f2h(rng.choice([1.0, 0.5, 0.25, 1 / 3, rng.uniform(0.01, 1.0)]))]
+    return ['f', f2h(rng.choice([1e-5, 0.1, 1 / 3, 2.5, 1.25e-9, rng.uniform(1e-6, 10.0)]))]
+
+
+def simple_value(rng, prm, algos, safe=False):
+    """admissible value whose TOML spelling needs no escaping"""
+    if safe:
+        return safe_value(rng, prm, algos)
+    for _ in range(50):
+        v = admissible_value(rng, prm, algos, 'ascii')
+        if v[0] != 's' or re.fullmatch(r'[A-Za-z0-9_.\- ]*', v[1]):
+            return v
+    return prm['default'][:2]
+
+
+def coq_tvalue_of_file(tagv, text):
+    k = tagv[0]
+    if k == 'b':
+        return f'(TStr {coq_string(text.strip(chr(34)))})'
+    if k == 'i':
+        return f'(TInt ({int(tagv[1])})%Z)'
+    if k == 'f':
+        return f'(TFloat ({int(tagv[1], 16)})%Z)'
+    return f'(TStr {cstr(tagv[1])})'
+
+
+def gen_params_history(rng, params, algos, nops):
+    entry = rng.choice(['parameters'] * 5 + ['biogeme_default', 'biogeme_default', 'biogeme_file', 'biogeme_object'])
+    files = {}
+
+    def handmade():
+        chosen = rng.sample(params, rng.randint(1, 6))
+        ent = []
+        for prm in chosen:
+            v = simple_value(rng, prm, algos, safe=entry != 'parameters')
+            ent.append({'name': prm['name'], 'section': prm['section'], 'v': v, 'text': toml_literal(rng, v)})
+        return ent
+
+    if rng.random() < 0.6:
+        files['first.toml'] = handmade()
+    if entry == 'biogeme_default' and rng.random() < 0.5:
+        files['biogeme.toml'] = handmade()
+    case = {'entry': entry, 'files': files, 'ops': []}
+    if entry == 'biogeme_file':
+        case['parameter_file'] = rng.choice(['first.toml', 'mine.toml'])
+    names = ['first.toml', 'second.toml', 'third.toml', 'biogeme.toml', 'mine.toml']
+    kinds = ['set'] * 5 + ['dump'] * 3 + ['read'] * 3
+    for i in range(nops):
+        k = rng.choice(kinds)
+        if k == 'set':
+            prm = rng.choice(params)
+            op = {'op': 'set', 'name': prm['name'], 'section': prm['section'],
+                  'v': admissible_value(rng, prm, algos, 'ascii') if entry == 'parameters' else safe_value(rng, prm, algos)}
+            if entry != 'parameters' and rng.random() < 0.5:
+                op['via'] = 'property'
+            case['ops'].append(op)
+        else:
+            case['ops'].append({'op': k, 'file': rng.choice(names)})
+    if rng.random() < 0.8:
+        case['ops'].append({'op': 'dump', 'file': rng.choice(names + ['last.toml'])})
+    return case
+
+
+def stream_params(ctx, n=None, with_model=True, only=None):
+    st = ctx.stream('params', 'histories on ONE Parameters object (plain, or held by a BIOGEME object built with the default file / a '
+                    'named file / a Parameters object): read_file of hand-written, previously dumped or missing files, set_value or '
+                    'BIOGEME property setters with admissible values, dump_file onto new or existing names, in every order; after '
+                    'every dump (and every file creation) a fresh object reads the file: every parameter must have the value the '
+                    'dumping object holds; non-trivial = a dump after the object already held a document and a value was changed '
+                    'since; distinct by history')
+    rng = ctx.sub_rng('params')
+    desc = ctx.impl('c14_toml.py', {'mode': 'describe'})
+    if 'params' not in desc:
+        ctx.stream_broken('params', 'cannot read the parameter table: ' + json.dumps(desc)[:300])
+        return
+    params, algos = desc['params'], desc['algorithms']
+    if sorted({c for prm in params for c in prm['checks']} - KNOWN_CHECKS):
+        ctx.stream_broken('params', 'parameter table uses checks unknown to the generator')
+        return
+    table = [{'name': prm['name'], 'section': prm['section']} for prm in params]
+    index = {(prm['name'], prm['section']): i for i, prm in enumerate(params)}
+    cases = load_corpus('params') if only is None else list(only)
+    for _ in range((n or ctx.n(120, 2000)) if only is None else 0):
+        cases.append(gen_params_history(rng, params, algos, rng.randint(2, 9)))
+    for c in cases:
+        c['table'] = table
+    res = run_chunks(ctx, 'c14_toml.py', cases, ctx.n(4, 16), wrap=lambda ch: {'mode': 'history', 'cases': ch})
+    how = ('run the operations of the witness in order on one Parameters object (entry says how it is obtained), then read the '
+           'dumped file with a fresh Parameters(): ./check C14 --replay <this file>')
+    items, icases, ires = [], [], []
+    for c, r in zip(cases, res):
+        wit = {k: v for k, v in c.items() if k != 'table'}
+        if skipped(r):
+            st.record(wit, nontrivial=False)
+            continue
+        if not r.get('ok'):
+            st.record(wit, nontrivial=False)
+            ctx.violation('C14/params/exception', f'the history could not be run: {r.get("exc")}: {r.get("msg")}', wit, 'a completed history', r, how)
+            continue
+        # ---- expected state, tracked independently of the implementation
+        state = [prm['default'][:2] for prm in params]
+        files = {fn: {(e['name'], e['section']): e['v'][:2] for e in ent} for fn, ent in c['files'].items()}
+        has_doc, dirty, nontrivial = False, False, False
+
+        def apply_file(fn):
+            for key, v in files[fn].items():
+                if key in index:
+                    state[index[key]] = v
+
+        if c['entry'] == 'biogeme_default':
+            if 'biogeme.toml' in files:
+                apply_file('biogeme.toml')
+            else:
+                files['biogeme.toml'] = {(t['name'], t['section']): v for t, v in zip(table, state)}
+            has_doc = True
+        elif c['entry'] == 'biogeme_file':
+            fn = c['parameter_file']
+            if fn in files:
+                apply_file(fn)
+            else:
+                files[fn] = {(t['name'], t['section']): v for t, v in zip(table, state)}
+            has_doc = True
+        if [v[:2] for v in r['initial']] != state:
+            st.disagree(wit, state, r['initial'], 'initial values')
+        observed_rb, ok_model = [], True
+        for i, (op, s) in enumerate(zip(c['ops'], r['steps'])):
+            swit = dict(wit, step=i)
+            if s['exc'] is not None:
+                ctx.violation(f'C14/params/exception/{op["op"]}', f'{op["op"]} raised {s["exc"]["exc"]}: {s["exc"]["msg"][:120]}', swit,
+                              'the operation succeeds (admissible values, valid files)', s, how)
+                ok_model = False
+                break
+            writes = False
+            if op['op'] == 'set':
+                state[index[(op['name'], op['section'])]] = op['v'][:2]
+                dirty = True
+            elif op['op'] == 'read':
+                if op['file'] in files:
+                    apply_file(op['file'])
+                else:
+                    writes = True          # the file is created with the current values
+                has_doc = True
+            else:
+                writes = True
+            if writes:
+                nontrivial = nontrivial or (has_doc and dirty)
+                has_doc = True
+                files[op['file']] = {(t['name'], t['section']): v for t, v in zip(table, state)}
+            kept = [v[:2] for v in s['kept']]
+            if kept != state:
+                st.disagree(swit, state, kept, 'values held by the object')
+            if 'readback' in s:
+                rb = [v[:2] for v in s['readback']]
+                observed_rb.append(s['readback'])
+                if writes and rb != kept:
+                    bad = [(t['name'], k_, b_) for t, k_, b_ in zip(table, kept, rb) if k_ != b_]
+                    ctx.violation(f'C14/params/readback-differs/{op["op"]}',
+                                  f'the file written by {op["op"]} (step {i}) does not hold the values of the object: {bad[:4]}', swit,
+                                  kept, rb, how)
+                elif not writes:
+                    # an existing file read by the object and by a fresh object: same values for the keys of the file
+                    want = dict(files[op['file']])
+                    got = {(t['name'], t['section']): v for t, v in zip(table, rb)}
+                    diff = [(k_, v) for k_, v in want.items() if k_ in index and got.get(k_) != v]
+                    if diff:
+                        st.disagree(swit, diff[:3], 'fresh read', 'existing file')
+        st.record(wit, nontrivial=nontrivial)
+        if with_model and ok_model and len(r['steps']) == len(c['ops']):
+            fs = []
+            for fn, ent in c['files'].items():
+                doc = coq_list([f'(({coq_string(e["name"])}, {coq_string(e["section"])}), {coq_tvalue_of_file(e["v"], e["text"])})' for e in ent])
+                fs.append(f'({coq_string(fn)}, {doc})')
+            pre = []
+            if c['entry'] == 'biogeme_default':
+                pre = ['CRead "biogeme.toml"']
+            elif c['entry'] == 'biogeme_file':
+                pre = [f'CRead {coq_string(c["parameter_file"])}']
+            ops = []
+            for op in c['ops']:
+                if op['op'] == 'set':
+                    ops.append(f'CSet ({coq_string(op["name"])}, {coq_string(op["section"])}) {coq_pvalue(op["v"])}')
+                elif op['op'] == 'dump':
+                    ops.append(f'CDump {coq_string(op["file"])}')
+                else:
+                    ops.append(f'CRead {coq_string(op["file"])}')
+            obs = coq_list([coq_list([coq_pvalue(v) for v in rb]) for rb in observed_rb], ';\n  ')
+            items.append(f'({coq_list(fs)}, {len(pre)}%nat, {coq_list(pre + ops)},\n  {obs})')
+            icases.append(wit)
+            ires.append(observed_rb)
+    if with_model and items:
+        TY = {'bool': 'TyBool', 'int': 'TyInt', 'float': 'TyFloat', 'str': 'TyStr'}
+        dflt = coq_list([f'mkParam {coq_string(prm["name"])} {coq_string(prm["section"])} {TY[prm["type"]]} '
+                         f'{coq_pvalue(prm["default"])} (fun _ => true)' for prm in params], ';\n  ')
+        header = ('From BV Require Import Model.PyBase Model.Params Gen.Params Proofs.ParamsP.\nOpen Scope string_scope.\n' + SOB +
+                  f'Definition defaults : pdict :=\n  {dflt}.\n'
+                  'Inductive cop := CSet (k : key) (v : pvalue) | CDump (f : string) | CRead (f : string).\n'
+                  'Fixpoint assoc (f : string) (fs : list (string * tdoc)) : option tdoc := match fs with nil => None\n'
+                  '  | cons (g, d) r => if String.eqb f g then Some d else assoc f r end.\n'
+                  'Definition readback (doc : tdoc) : list pvalue := match imp_doc (rev doc) defaults with Some d => map p_value d | None => nil end.\n'
+                  'Definition odump (o : pobj) := obj_dump encode_value dump_file_document o.\n'
+                  '(* skip = number of leading reads done by the BIOGEME constructor (their read-back is not observed) *)\n'
+                  'Fixpoint crun (ops : list cop) (skip : nat) (o : pobj) (fs : list (string * tdoc)) (acc : list (list pvalue)) : option (list (list pvalue)) :=\n'
+                  '  match ops with nil => Some (rev acc)\n'
+                  '  | cons (CSet k v) r => match obj_set o k v with Some o1 => crun r skip o1 fs acc | None => None end\n'
+                  '  | cons (CDump f) r => match odump o with Some (o1, doc) => crun r (pred skip) o1 (cons (f, doc) fs) (match skip with O => cons (readback doc) acc | _ => acc end) | None => None end\n'
+                  '  | cons (CRead f) r => match assoc f fs with\n'
+                  '      | Some doc => match imp_doc doc (o_dict o) with Some d => crun r (pred skip) (mkObj d (Some doc)) fs (match skip with O => cons (readback doc) acc | _ => acc end) | None => None end\n'
+                  '      | None => match odump o with Some (o1, doc) => crun r (pred skip) o1 (cons (f, doc) fs) (match skip with O => cons (readback doc) acc | _ => acc end) | None => None end\n'
+                  '      end\n  end.\n'
+                  'Definition pv_eqb (a b : pvalue) : bool := match a, b with\n'
+                  '  | PBool x, PBool y => Bool.eqb x y | PInt x, PInt y => Z.eqb x y | PFloat x, PFloat y => Z.eqb x y\n'
+                  '  | PStr x, PStr y => String.eqb x y | _, _ => false end.\n'
+                  'Fixpoint all2 (l1 l2 : list pvalue) : bool := match l1, l2 with\n'
+                  '  | nil, nil => true | cons a r1, cons b r2 => pv_eqb a b && all2 r1 r2 | _, _ => false end.\n'
+                  'Fixpoint all22 (l1 l2 : list (list pvalue)) : bool := match l1, l2 with\n'
+                  '  | nil, nil => true | cons a r1, cons b r2 => all2 a b && all22 r1 r2 | _, _ => false end.\n')
+        chk = ('Definition chk (c : list (string * tdoc) * nat * list cop * list (list pvalue)) : bool :=\n'
+               "  let '(fs, skip, ops, obs) := c in\n"
+               '  match crun ops skip (mkObj defaults None) fs nil with Some rb => all22 rb obs | None => false end.\n')
+        coq_check_batches(ctx, 'params', st, 'params', header, chk, items, icases, ires, B=30,
+                          ctype='list (string * tdoc) * nat * list cop * list (list pvalue)')
+    finish_stream(ctx, 'params', st)
 
 
 GENERATORS = (('Files', gen_files), ('Backup', gen_backup), ('Params', gen_params), ('Reports', gen_reports),
@@ -1509,14 +1811,14 @@ def run(ctx):
     except Untranslatable as e:
         ctx.tie_broken('scan:writers', str(e))
     ctx.build()
-    streams = [stream_names, stream_backup, stream_boolean, stream_history, stream_toml, stream_reports, stream_pickle]
+    streams = [stream_names, stream_backup, stream_boolean, stream_history, stream_toml, stream_params, stream_reports, stream_pickle]
     for f in streams:
         f(ctx)
     if ctx.broken and not ctx.violations:
         # failing-input search: something no longer checks; evaluate the property oracles on more inputs
         # (implementation only -- the model may be stale), the streams named in the broken items first
         names = ' '.join(b['name'] + ' ' + b['detail'][:200] for b in ctx.broken)
-        order = sorted([stream_history, stream_reports, stream_pickle, stream_toml, stream_backup],
+        order = sorted([stream_history, stream_reports, stream_pickle, stream_toml, stream_params, stream_backup],
                        key=lambda f: 0 if f.__name__.split('_')[1] in names.lower() else 1)
         saved = len(ctx.broken)
         for f in order:
@@ -1524,7 +1826,7 @@ def run(ctx):
             ctx.seed = f'{old}-search'
             try:
                 f(ctx, n={'stream_history': ctx.n(96, 800), 'stream_reports': ctx.n(400, 3000), 'stream_pickle': ctx.n(150, 2000),
-                          'stream_toml': ctx.n(200, 2000), 'stream_backup': ctx.n(400, 4000)}[f.__name__],
+                          'stream_toml': ctx.n(200, 2000), 'stream_params': ctx.n(400, 3000), 'stream_backup': ctx.n(400, 4000)}[f.__name__],
                   **({} if f is stream_pickle else {'with_model': False}))
             finally:
                 ctx.seed = old
@@ -1542,7 +1844,7 @@ def replay(ctx, path):
     parts = key.split('/')
     kind = parts[1] if len(parts) > 1 else 'names'
     fn = {'names': stream_names, 'backup': stream_backup, 'boolean': stream_boolean, 'history': stream_history,
-          'toml': stream_toml, 'reports': stream_reports, 'pickle': stream_pickle}.get(kind)
+          'toml': stream_toml, 'params': stream_params, 'reports': stream_reports, 'pickle': stream_pickle}.get(kind)
     if fn is None:
         print('replay: unknown witness kind ' + kind)
         return 2
